@@ -190,6 +190,14 @@ def facts():
     f["view_resources_borrows_receiver"] = bool(m) and ("ContainsViews<'%s," % m.group(1)) in vr
     gm = sig("src/world/mod.rs", "get_mut")
     f["get_mut_borrows_receiver"] = "(&mutself)->&mutResource" in gm
+    # ---- raw-parts write-back after every capacity-changing call
+    sites = writeback_sites()
+    f["wb_sites"] = sites
+    for cls in ("push", "buffer_push", "extend", "reserve", "shrink", "other"):
+        mine = [s_ for s_ in sites if s_["class"] == cls]
+        if not mine:
+            raise ParseFailure("no write-back site of class %s found" % cls)
+        f["wb_" + cls] = all(s_["written_back"] for s_ in mine)
     return f
 
 
@@ -207,10 +215,14 @@ def emit(f):
               "world_send_needs_components_send", "world_sync_needs_components_sync", "iter_send_needs_views_send",
               "entries_send_needs_views_send", "parview_ref_needs_sync", "parview_mut_needs_send", "parviews_need_send",
               "world_entry_query_borrows_receiver", "entries_entry_query_borrows_receiver", "world_query_borrows_receiver",
-              "view_resources_borrows_receiver", "get_mut_borrows_receiver"]:
+              "view_resources_borrows_receiver", "get_mut_borrows_receiver",
+              "wb_push", "wb_buffer_push", "wb_extend", "wb_reserve", "wb_shrink", "wb_other"]:
         o.append("Definition fact_%s : bool := %s." % (k, b(f[k])))
     o.append("Definition world_literal_sites : list string := [%s]." % "; ".join('"%s"' % s for s in f["literal_sites"]))
     o.append("Definition batch_literal_sites : list string := [%s]." % "; ".join('"%s"' % s for s in f["batch_literal_sites"]))
+    o.append("(* every Vec rebuilt from raw parts and then grown/shrunk: (file::fn, calls, pointer and capacity() stored back) *)")
+    o.append("Definition writeback_sites : list (string * string * bool) := [%s]." % ";\n  ".join(
+        '("%s::%s", "%s", %s)' % (s_["file"], s_["fn"], ",".join(s_["calls"]), b(s_["written_back"])) for s_ in f["wb_sites"]))
     return "\n".join(o) + "\n"
 
 
@@ -232,6 +244,69 @@ def main():
         print("regenerated-changed")
     else:
         print("regenerated-identical")
+
+
+
+
+# ---------------------------------------------------------------------------------------------
+# Raw-parts write-back facts (C05): every `Vec` rebuilt from `(ptr, length, cap)` that is then
+# grown, shrunk or replaced must have its pointer AND `capacity()` stored back into the raw parts.
+
+GROWING = ("push", "extend", "reserve", "shrink_to_fit", "clone_from", "append", "insert", "extend_from_slice", "resize",
+           "reserve_exact", "truncate_and_shrink")
+WB_FILES = ["src/entity/sealed/storage.rs", "src/entities/sealed/storage.rs", "src/registry/sealed/storage.rs",
+            "src/archetype/mod.rs", "src/registry/clone/sealed.rs", "src/registry/serde/de/sealed.rs",
+            "src/archetype/impl_serde.rs", "src/archetype/impl_clone.rs"]
+WB_CLASS = {  # (file suffix, fn) -> operation class of the heap model
+    ("entity/sealed/storage.rs", "push_components"): "push", ("archetype/mod.rs", "push"): "push",
+    ("archetype/mod.rs", "push_from_buffer_and_component"): "buffer_push", ("archetype/mod.rs", "push_from_buffer_skipping_component"): "buffer_push",
+    ("registry/sealed/storage.rs", "push_components_from_buffer_and_component"): "buffer_push",
+    ("registry/sealed/storage.rs", "push_components_from_buffer_skipping_component"): "buffer_push",
+    ("entities/sealed/storage.rs", "extend_components"): "extend", ("archetype/mod.rs", "extend"): "extend",
+    ("entity/sealed/storage.rs", "reserve_components"): "reserve", ("archetype/mod.rs", "reserve"): "reserve",
+    ("registry/sealed/storage.rs", "shrink_components_to_fit"): "shrink", ("archetype/mod.rs", "shrink_to_fit"): "shrink",
+}
+
+
+def writeback_sites():
+    sites = []
+    for rel in WB_FILES:
+        try:
+            src = read(rel)
+        except ParseFailure:
+            continue
+        for quals, name, body in fn_bodies(src):
+            b = body
+            for m in re.finditer(r"let\s+mut\s+(\w+)\s*=\s*ManuallyDrop::new\(", b):
+                v = m.group(1)
+                rest = b[m.end():]
+                # what the Vec was rebuilt from: the first `X.0` / `X.1` after from_raw_parts
+                fr = re.search(r"from_raw_parts(?:::<[^>]*>)?\s*\(\s*([\w\.]+)\.0", rest[:900])
+                if not fr:
+                    # a fresh Vec or one handed in by the caller: `ManuallyDrop::new(self.0)` / Vec::new()
+                    src_x = None
+                else:
+                    src_x = fr.group(1)
+                calls = [c.group(1) for c in re.finditer(r"\b%s\s*\.\s*(\w+)\s*\(" % re.escape(v), rest)]
+                grow = [c for c in calls if c in GROWING]
+                if not grow:
+                    continue
+                nb = norm(rest)
+                wb = False
+                targets = [src_x] if src_x else []
+                # adopting a caller's Vec writes into whatever column variable is in scope
+                if src_x is None:
+                    targets = re.findall(r"\*(\w+)=\(%s\.as_mut_ptr\(\)" % re.escape(v), nb) or re.findall(r"([\w\.]+)=\(%s\.as_mut_ptr\(\)" % re.escape(v), nb)
+                for x in targets:
+                    xs = re.escape(x)
+                    vs_ = re.escape(v)
+                    if re.search(r"\*?%s=\(%s\.as_mut_ptr\(\)(?:\.cast::<u8>\(\))?,%s\.capacity\(\),?\)" % (xs, vs_, vs_), nb):
+                        wb = True
+                    if re.search(r"%s\.0=%s\.as_mut_ptr\(\)(?:\.cast::<u8>\(\))?;%s\.1=%s\.capacity\(\);" % (xs, vs_, xs, vs_), nb):
+                        wb = True
+                cls = next((c for (suf, fn_), c in WB_CLASS.items() if rel.endswith(suf) and fn_ == name), "other")
+                sites.append({"file": rel, "fn": name, "var": v, "from": src_x, "calls": sorted(set(grow)), "written_back": wb, "class": cls})
+    return sites
 
 
 if __name__ == "__main__":
